@@ -432,3 +432,4 @@ def check(run):
         check_tuples(run, f, cfg, rule="C01.R10")
     run.assumptions.append("raw SQL supplied by the user (Expr::cust, extra(), custom keywords/functions) contains no unquoted placeholder marks")
     run.assumptions.append("C01.R8 (no value-carrying field is dropped by a renderer) is decided under C07/C08 field consumption")
+    run.delegate("C03", "a Value written with Display inside a renderer is inlined (and mis-quoted) instead of being bound", only_rules={"R6"})
